@@ -98,7 +98,7 @@ theorem ended_is_final (s : Proto) (is : List Inp) (hi : Inv s) (he : s.ended.is
 /-- a fan-out whose failure is caught (metadata retained while the execution runs on at the top level), then the back
 stop finds the metadata expired, then the stalled top-level continuation reaches its terminal state -/
 def caughtThenBackstopThenTopEnd : List Inp :=
-  [.launch 0 2 none 0, .event 0 1 .goesOn, .event 0 0 (.fail (.plain 1) [.caught]), .backstop, .topEnd true]
+  [.launch 0 2 2 none 0, .event 0 1 .goesOn, .event 0 0 (.fail (.plain 1) [.caught]), .backstop, .topEnd true]
 
 /-- C06-F5 (`topUnguarded`): the code as it is ends that execution twice (FAILED by the back stop, then SUCCEEDED) -/
 theorem top_unguarded_ends_twice :
